@@ -236,6 +236,50 @@ def c17(tier):
                                 v.violation(f"C17|exit-zero-on-failure|stage={stage}", ctx)
                             if pre != "absent" and after_sha != before_sha:
                                 v.violation(f"C17|output-clobbered|stage={stage}", dict(ctx, after="missing" if after_sha is None else "changed"))
+        # ---- the output itself cannot be written: generation succeeds, the run must still fail (non-zero status), and nothing
+        # else may appear
+        unwritable_runs = 0
+        for name, (files, inp, should_ok, stage) in scen.items():
+            if not should_ok:
+                continue
+            for how in ("parent-directory-missing", "path-is-a-directory", "device-full", "default-path-is-a-directory"):
+                case += 1
+                base = os.path.join(root, f"case{case}")
+                indir = os.path.join(base, "proj", "in.d")
+                os.makedirs(indir)
+                for fn, c in files.items():
+                    os.makedirs(os.path.dirname(os.path.join(indir, fn)), exist_ok=True)
+                    with open(os.path.join(indir, fn), "wb") as f:
+                        f.write(c if isinstance(c, bytes) else c.encode())
+                in_abs = os.path.join(indir, inp)
+                if how == "parent-directory-missing":
+                    out_arg = os.path.join(base, "no", "such", "dir", "gen.rs")
+                elif how == "path-is-a-directory":
+                    out_arg = os.path.join(base, "outdir.rs")
+                    os.makedirs(out_arg)
+                elif how == "device-full":
+                    out_arg = "/dev/full"
+                    if not os.path.exists(out_arg):
+                        continue
+                else:
+                    out_arg = None
+                    os.makedirs(os.path.splitext(in_abs)[0] + ".rs")
+                before_list = _listing(base)
+                cmd = [zeep, "--input", in_abs] + (["--output", out_arg] if out_arg else [])
+                try:
+                    p = subprocess.run(cmd, cwd=base, stdout=subprocess.PIPE, stderr=subprocess.PIPE, timeout=120, env=dict(common.ENV, RUST_BACKTRACE="0"))
+                except subprocess.TimeoutExpired:
+                    continue
+                runs += 1
+                unwritable_runs += 1
+                cells.add((name, "absolute", "unwritable:" + how, "absent"))
+                ctx = {"scenario": name, "output": how, "exit": p.returncode, "stderr": p.stderr.decode(errors="replace")[-300:]}
+                outcome_table[f"unwritable-output:{'exit0' if p.returncode == 0 else 'nonzero'}"] = \
+                    outcome_table.get(f"unwritable-output:{'exit0' if p.returncode == 0 else 'nonzero'}", 0) + 1
+                if p.returncode == 0:
+                    v.violation(f"C17|exit-zero-on-failure|stage=write-output|how={how}", ctx)
+                if _listing(base) - before_list:
+                    v.violation("C17|stray-file|scenario=unwritable-output|output=" + how, dict(ctx, stray=sorted(_listing(base) - before_list)))
     finally:
         shutil.rmtree(root, ignore_errors=True)
     cov = {
@@ -247,7 +291,9 @@ def c17(tier):
                 "default; for two of the spellings also --output with another extension, with none and with two, each next to a "
                 "hand-written file of the name that replacing the extension by .rs would give} x pre-existing output {absent, shorter, longer}. Every cell is one run of the built binary in a fresh scratch tree; "
                 "distinct_nontrivial = distinct cells run. Oracles: exit status, output bytes == library bytes (zdrive on the same directory), "
-                "no stale tail, no stray files, failing runs leave a pre-existing output byte-identical",
+                "no stale tail, no stray files, failing runs leave a pre-existing output byte-identical; plus, for every succeeding scenario, four "
+                "ways in which the output cannot be written (missing parent directory, the path is a directory, /dev/full, the default path is "
+                "a directory): non-zero exit status, nothing else created",
         "exhaustive": True, "exit_status_by_scenario": outcome_table, "samples": samples,
     }
     v.finish(cov, assumptions=["reference bytes: read_input_file_and_xsd_files_at_path + read_xml + write_xml through zdrive on a copy of the same files",
